@@ -43,6 +43,7 @@ fn derived_sizes_consistent(c: &TlsCipherSuite) {
 }
 
 /// Every 16-bit id through the compiled phf map (SipHash): presence iff listed, id carried, routes agree.
+/// Split in two harnesses (two lookups each) so that they run in parallel.
 #[kani::proof]
 #[kani::unwind(4)]
 fn c12_lookup_any_id() {
@@ -50,15 +51,28 @@ fn c12_lookup_any_id() {
     let a = TlsCipherSuite::from_id(id);
     vassert!(a.is_some() == ref_has(id), "C12.lookup.from_id_some_iff_listed");
     let b = <&'static TlsCipherSuite>::try_from(id).ok();
-    let c = <&'static TlsCipherSuite>::try_from(TlsCipherSuiteID(id)).ok();
-    let d = TlsCipherSuiteID(id).get_ciphersuite();
-    vassert!(same(a, b) && same(a, c) && same(a, d), "C12.lookup.all_routes_return_the_same_entry");
+    vassert!(same(a, b), "C12.lookup.all_routes_return_the_same_entry");
     if let Some(s) = a {
         vassert!(s.id.0 == id, "C12.lookup.suite_carries_queried_id");
         derived_sizes_consistent(s);
         vcover!(true, "C12.cover.listed_id");
     } else {
         vcover!(true, "C12.cover.unlisted_id");
+    }
+}
+
+#[kani::proof]
+#[kani::unwind(4)]
+fn c12_lookup_any_id_other_routes() {
+    let id: u16 = kani::any();
+    let c = <&'static TlsCipherSuite>::try_from(TlsCipherSuiteID(id)).ok();
+    let d = TlsCipherSuiteID(id).get_ciphersuite();
+    vassert!(same(c, d), "C12.lookup.all_routes_return_the_same_entry");
+    vassert!(c.is_some() == ref_has(id), "C12.lookup.try_from_id_some_iff_listed");
+    if let Some(s) = c {
+        // ids are unique keys: an entry carrying the queried id is the entry from_id returns (first harness)
+        vassert!(s.id.0 == id, "C12.lookup.suite_carries_queried_id");
+        vcover!(true, "C12.cover.listed_id_other_routes");
     }
 }
 
